@@ -163,13 +163,13 @@ Definition new_task (st : state) (q : rq) : state * res tid :=
             (cache st ++ [(q, t)]),
    Ok t).
 
-(* the injected tasks are existing objects *)
-Definition ureq_wf (n : nat) (r : ureq) : bool := forallb (fun t => t <? n) (injected r).
+(* the tasks a request mentions are existing objects *)
+Definition rq_wf (n : nat) (q : rq) : bool := forallb (fun t => t <? n) (hard_of q ++ soft_of q).
 
 (* Use.get_task; Raise 1 stands for "cannot be written in Python" *)
 Definition use_get (st : state) (r0 : ureq) : state * res tid :=
   let q := RUse (norm_u r0) in
-  if negb (ureq_wf (length (tasks st)) r0) then (st, Raise 1)
+  if negb (rq_wf (length (tasks st)) q) then (st, Raise 1)
   else match find (fun e => if rq_eq_dec (fst e) q then true else false) (cache st) with
        | Some (_, t) => (st, Ok t)
        | None => new_task st q
@@ -184,7 +184,7 @@ Definition same_slot (f : nat) (nm : string) (q : rq) : bool :=
 (* RunTaskFactory.make; Raise 0 = ValueError (name reused for another request) *)
 Definition make (st : state) (f : nat) (r : rreq) : state * res tid :=
   let q := resolve_run f r in
-  if negb (forallb (fun t => t <? length (tasks st)) (hard_of q ++ soft_of q)) then (st, Raise 1)
+  if negb (rq_wf (length (tasks st)) q) then (st, Raise 1)
   else match q with
   | RRun _ nm _ =>
       match find (fun e => same_slot f nm (fst e)) (cache st) with
